@@ -78,6 +78,24 @@ PROPS = {
         "rule": "random statement trees (prefixed extension keywords, depth <=3/6, fan-out <=4) spelled with random trivia (blanks, tabs, LF, CRLF, /* */ and // comments containing statement "
                 "punctuation) at every token boundary and a random quoting of every argument; compared: walk of Tree.Root (keyword, argument, line:col of every keyword) with the model and with the generated tree",
     },
+    "C13": {
+        "streams": {"ytypes": {"quick": 4000, "thorough": 200000}},
+        "trusted": ["Go float64 comparison / strconv.ParseFloat = SF64 (checked bit-for-bit by C01's stream 'sf')",
+                    "patterns (RE2) are opaque: only their accumulation along the chain is observed (count), not their language"],
+        "modelled": ["union / identityref / leafref / bits / instance-identifier members of a chain are outside this model",
+                     "decimal64 boundaries are binary64 in the code and in the model; the specification is exact: open known finding"],
+        "rule": "random typedef chains (depth 0-4) over int8..64, uint8..64, decimal64 fd 1..18, string, boolean, empty, enumeration; each level with an optional range/length "
+                "(1-3 parts, min/max keywords, adjacent and overlapping parts, boundaries at the base's bounds +/- 1, wrong restriction kind) and an optional default; the module is "
+                "compiled by the real compiler and the leaf's Type.Validate is probed with boundary +/- 1 values and malformed lexemes; compared: compile verdict, Type.Default(), verdict per probe",
+    },
+    "C16": {
+        "streams": {"ytypes": {"quick": 4000, "thorough": 200000}},
+        "trusted": ["Go float64 comparison / strconv.ParseFloat = SF64 (checked bit-for-bit by C01's stream 'sf')"],
+        "modelled": ["patterns (RE2 language), union, identityref, leafref, bits, instance-identifier, and the error path/app-tag of a rejection are not modelled yet",
+                     "decimal64 ranges are binary64 in the code and in the model; the specification is exact: open known finding"],
+        "rule": "the probes of stream ytypes: for every generated type, every bound of every range part +/- one unit, the width bounds +/- 1, 18-19 digit values, signs, leading zeros, "
+                "blanks, hex/exponent forms, multi-byte strings at the length bounds; compared: Type.Validate verdict per probe with the model and with the exact value-space specification",
+    },
     "C04": {
         "streams": {"xsmall": {"quick": 1, "thorough": 1, "spec_proj": "accept"},
                     "xfuzz": {"quick": 30000, "thorough": 1000000, "spec_proj": "accept"}},
